@@ -19,6 +19,15 @@ SIGS = {
     "v_refine_assigned_painted": (None, [c_int, P, P, P, c_int, P, P, c_int]),
     "v_score_and_refine_painted": (None, [c_int, P, P, c_double, P, P, c_int]),
     "v_paint_stack": (c_int, [c_int, c_int]),
+    "localmaxlabel": (c_int, [P, P, P, c_int, c_int]),
+    "v_connectedpixels": (c_int, [P, P, c_float, c_int, c_int, c_int, c_int]),
+    # vrt runtime (sched variant only)
+    "vrt_config": (None, [C.c_uint64, c_int, c_int, c_int, c_int]),
+    "vrt_reset": (None, []),
+    "vrt_region_add": (c_int, [P, C.c_uint64, c_int, c_int]),
+    "vrt_stats": (None, [P]),
+    "vrt_violation": (c_int, [c_int, P]),
+    "vrt_unwritten": (C.c_int64, [c_int, P]),
     "cimaged11_omp_set_num_threads": (None, [c_int]),
     "cimaged11_omp_get_max_threads": (c_int, []),
 }
@@ -41,3 +50,60 @@ def load(variant="plain"):
 
 def ptr(a):
     return a.ctypes.data_as(C.c_void_p)
+
+
+R, W, RW = 1, 2, 3
+VKIND = {1: "read-outside", 2: "write-outside", 3: "write-to-readonly", 4: "read-never-written", 5: "use-after-free"}
+
+
+class Vrt(object):
+    """Python side of the vrt runtime in libk_sched.so"""
+
+    def __init__(self, lib=None):
+        self.lib = lib or load("sched")
+        self.path = build.kernel_lib("sched")
+
+    def begin(self, seed, nthreads, mean_gap=50, pyw=0, sched=1):
+        self.lib.vrt_reset()
+        self.lib.vrt_config(int(seed) & (2 ** 63 - 1), int(mean_gap), int(pyw), int(nthreads), int(sched))
+        self.regions = {}
+
+    def region(self, name, arr, rights, track=False):
+        i = self.lib.vrt_region_add(ptr(arr), arr.nbytes, rights, 1 if track else 0)
+        self.regions[i] = (name, arr)
+        return i
+
+    def stats(self):
+        out = np.zeros(8, np.uint64)
+        self.lib.vrt_stats(ptr(out))
+        return dict(accesses=int(out[0]), switches=int(out[1]), regions_run=int(out[2]), schedule_hash=int(out[3]),
+                    violations=int(out[4]), sched_points=int(out[5]), nregions=int(out[6]), lib_base=int(out[7]))
+
+    def violations(self, symbolize=True):
+        res = []
+        n = self.stats()["violations"]
+        for i in range(min(n, 64)):
+            out = np.zeros(7, np.int64)
+            if not self.lib.vrt_violation(i, ptr(out)):
+                break
+            reg = int(out[5])
+            d = dict(kind=VKIND.get(int(out[0]), str(out[0])), tid=int(out[1]), size=int(out[3]), pc_off=int(out[4]),
+                     region=self.regions.get(reg, ("kernel-malloc#%d" % reg, None))[0], region_offset=int(out[6]))
+            res.append(d)
+        if symbolize and res:
+            import subprocess
+            offs = sorted(set(hex(v["pc_off"]) for v in res))
+            try:
+                txt = subprocess.run(["addr2line", "-f", "-e", self.path] + offs, stdout=subprocess.PIPE,
+                                     timeout=30).stdout.decode().splitlines()
+                m = {o: (txt[2 * k], txt[2 * k + 1].split("/")[-1]) for k, o in enumerate(offs)}
+                for v in res:
+                    v["where"] = "%s %s" % m[hex(v["pc_off"])]
+            except Exception:
+                pass
+        return res
+
+    def unwritten(self, region):
+        first = C.c_int64(-1)
+        n = self.lib.vrt_unwritten(region, C.byref(first))
+        return int(n), int(first.value)
